@@ -12,7 +12,7 @@ def insert_stubs(u, no_ctor_key=()):
     for f in u.json['functions']:
         if not re.search(r'rb_tree::container<.*>::insert$', f['qualified']):
             continue
-        m = re.match(r'(.+?) \* (\w+)\((.+?) \*self, (.+?) \*v_key, (.+?) v_comp\)$', f['sig'])
+        m = re.match(r'(.+?) \* (\w+)\((.+?) \*self, (.+?) \*v_\w+, (.+?) v_\w+\)$', f['sig'])
         if not m:
             raise Undecided('cannot parse insert signature: ' + f['sig'][:200])
         elem_t, fn, self_t, key_t, comp_t = m.groups()
@@ -60,7 +60,7 @@ def insert_stubs(u, no_ctor_key=()):
     for f in u.json['functions']:
         if not re.search(r'rb_tree::container<.*>::find$', f['qualified']):
             continue
-        m = re.match(r'(.+?) \* (\w+)\((.+?) \*self, (.+?) \*v_key, (.+?) v_comp\)$', f['sig'])
+        m = re.match(r'(.+?) \* (\w+)\((.+?) \*self, (.+?) \*v_\w+, (.+?) v_\w+\)$', f['sig'])
         if not m or m.group(1) not in etypes:
             continue
         elem_t, fn, self_t, key_t, comp_t = m.groups()
